@@ -247,3 +247,5 @@ def layout(ctx, rule="C16.layout"):
 
 def _drop_real(v):
     return v
+    from . import c15 as _c15
+    ctx.shared(_c15.hbar_source)
